@@ -2,10 +2,12 @@
    access) established so far about the functions regenerated from the current
    src/varintRLE.c by gen/c2coq.py (coq/gen/Src_rle.v): the two loop-free readers
    the decoders are built from compute what the hand-written model (RLE.v, about
-   which Properties_C02_rledict.v proves the round trip) computes.  The looping
-   decoders and the encoders are translated and run against the C on every run,
-   but not yet tied to the model by proof. *)
-Require Import VV.Base VV.Tagged VV.RLE VV.CSem VV.RleSrcProofs.
+   which Properties_C02_rledict.v proves the round trip) computes, and the looping
+   decoder varintRLEDecode gives back the array on what rle_encode produced (end
+   of file).  varintRLEDecodeWithHeader, varintRLEGetAt and the encoders are
+   translated and run against the C on every run, but not yet tied to the model
+   by proof. *)
+Require Import VV.Base VV.Tagged VV.RLE VV.RLESpec VV.RLEProofs VV.CSem VV.RleSrcProofs VV.RleSrc2Model.
 Require Import VVgen.Src_rle.
 Local Open Scope Z_scope.
 
@@ -38,3 +40,34 @@ Example C02_src_rle_example :
   src_varintRLEDecodeRun [3; 5; 2; 241; 60]%N None None = COk (2, Some 3, Some 5) /\
   src_varintRLEGetAt 9 [3; 5; 2; 241; 60]%N 3 = COk 300.
 Proof. vm_compute. repeat split; reflexivity. Qed.
+
+(* the regenerated varintRLEDecode on the byte image of ANY list of runs (length
+   >= 1, 64-bit values; followed by any bytes) with capacity cap <= total: returns
+   cap and has stored the first cap values of the expansion at indices 0..cap-1 of
+   the output list; the elements from cap on are untouched *)
+Theorem C02_src_rle_decode_runs : forall fuel rs tl vals cap,
+  bytes_ok (enc_runs rs ++ tl) -> runs_wf rs ->
+  0 <= cap <= Z.of_N (runs_total rs) -> Z.of_N (runs_total rs) < 18446744073709551616 ->
+  cap <= Z.of_nat (length vals) < 18446744073709551616 ->
+  (Z.to_nat cap < fuel)%nat -> (length rs < fuel)%nat ->
+  src_varintRLEDecode fuel (enc_runs rs ++ tl) vals cap =
+  COk (cap, map Z.of_N (firstn (Z.to_nat cap) (expand_runs rs)) ++ skipn (Z.to_nat cap) vals).
+Proof. exact src_varintRLEDecode_runs. Qed.
+Print Assumptions C02_src_rle_decode_runs.
+
+(* round trip: the regenerated decoder on what the model encoder rle_encode
+   produced for xs (any bytes may follow), capacity cap <= count: the first cap
+   values of xs (cap = count: all of xs), nothing else touched *)
+Theorem C02_src_rle_decode_roundtrip : forall fuel xs tl vals (cap : nat),
+  Forall (fun x => (x < 18446744073709551616)%N) xs -> Z.of_nat (length xs) < 18446744073709551616 ->
+  bytes_ok tl -> (cap <= length xs)%nat ->
+  (cap <= length vals)%nat -> Z.of_nat (length vals) < 18446744073709551616 -> (length xs < fuel)%nat ->
+  src_varintRLEDecode fuel (fst (rle_encode xs) ++ tl) vals (Z.of_nat cap) =
+  COk (Z.of_nat cap, map Z.of_N (firstn cap xs) ++ skipn cap vals).
+Proof. exact src_varintRLEDecode_is_model. Qed.
+Print Assumptions C02_src_rle_decode_roundtrip.
+
+Example C02_src_rle_roundtrip_example :
+  src_varintRLEDecode 9 (fst (rle_encode [5; 5; 5; 300; 300]%N)) [7; 7; 7; 7; 7; 7] 5 = COk (5, [5; 5; 5; 300; 300; 7]) /\
+  src_varintRLEDecode 9 (fst (rle_encode [5; 5; 5; 300; 300]%N)) [7; 7; 7; 7; 7; 7] 4 = COk (4, [5; 5; 5; 300; 7; 7]).
+Proof. vm_compute. split; reflexivity. Qed.
